@@ -3,13 +3,47 @@
 import json, os
 V = os.path.dirname(os.path.dirname(os.path.abspath(__file__)))
 
+TECH = "bounded symbolic execution of the real Rust code (Kani 0.68 codegen -> CBMC 6.11 / CaDiCaL, unwinding assertions on); every counterexample replayed natively against the real dependency set"
+COMMON_NOTE = " Trusted base: sequential dashmap/tracing/once_cell shims in the solver build (real crates in replay), environment stubs listed per harness in the evidence, rustpython parser replaced by an oracle generated from the real parser's output and re-checked natively (gate `oracle`). Handler code written inline in src/providers/*.rs and src/main.rs is outside the encoded program."
 CLAIMED = {
- # id: (design_ref, text, note)
- "C01": ("DESIGN.md §4 C01", "Bounded model checking of the real resolver cascade (find_closest_definition / find_fixture_definition) with Kani/CBMC: one SAT query per layout arm decides the comparison with an independent model of pytest's lookup for every value of the symbolic attributes (definition lines, import bits, cursor column). Exhaustive inside each arm, the arm list is finite and listed in the evidence.",
-         "Skeleton list is finite (depth 2 tree, <=4 same-named definitions); import relation is an oracle (the import walk itself is C14, not applicable); dashmap replaced by a sequential shim; Path::exists stubbed."),
- "C11": ("DESIGN.md §4 C11", "Panic-freedom of the string/offset kernels the handlers apply to untrusted or stale data, decided by CBMC over symbolic bytes (any valid UTF-8 up to the stated length) and unconstrained offsets; Rust's own panics, bounds and overflow checks are the assertion.",
-         "Library kernels only (handlers' inline slicing and the parser are outside); text length <= 4 symbolic bytes or templates; Unicode tables replaced by a sound over-approximation."),
+ "C01": ("DESIGN.md §4 C01, §9", "Bounded model checking of the real resolver cascade (find_closest_definition) and position lookup (find_fixture_definition): one SAT query per layout arm decides the comparison with an independent model of pytest's lookup for every value of the symbolic attributes (definition lines, import bits and statement form, third-party-is-plugin flag, recorded usage spans). Exhaustive inside each arm; the arm list (registration orders x providers, depth <= 3 conftest levels) is finite and listed in the evidence.",
+         "Import relation is an oracle in the solver build (the import walk is C14, not applicable) and the real walk in native replay; cursor columns are concrete per harness (a symbolic column could not be decided), recorded spans symbolic." + COMMON_NOTE),
+ "C02": ("DESIGN.md §4 C02, §9", "Override chains (length 2..3 over same file / conftest levels / plugin / third-party): one position query per harness on the real find_fixture_definition / find_fixture_or_definition_at_position with the recorded parameter / name span symbolic, plus find_references_for_definition of every link against the reference binding; decided by CBMC per arm.",
+         "Chains of length <= 3, concrete generated texts, one concrete cursor column per harness." + COMMON_NOTE),
+ "C03": ("DESIGN.md §4 C03, §9", "Post-parser extraction: the real analyze_file is symbolically executed on documents of a version table (parser replaced by an oracle holding the real parser's ASTs) and the recorded definitions/usages are compared record by record with a hand-written reference extraction of the documented pytest forms.",
+         "Documents are the D_* texts of kani/oracle_table.py only (decorator spellings, async, class-nested, name=, assignment style, generators, annotations, docstring layout); the parser itself is trusted (gate `oracle`); not a comparison with CPython over all sources." + COMMON_NOTE),
+ "C04": ("DESIGN.md §4 C04, §9", "Cross-check of two real code paths per world: a usage is listed by find_references_for_definition(D) iff find_fixture_definition on it lands on D, no duplicates, unresolved usages nowhere; reverse index == usages after analyze_file histories; CLI unused list vs reference sets.",
+         "Worlds: shadowing, override, sibling-first and usage-above-override layouts with concrete texts; code-lens / call-hierarchy formatting (handlers) not encoded." + COMMON_NOTE),
+ "C05": ("DESIGN.md §4 C05, §9", "Cross-check without reference model: for each world arm the definition picked by navigation (find_closest_definition), outgoing calls (resolve_fixture_for_file), implementation/prepare (find_fixture_or_definition_at_position) and the entry in get_available_fixtures are compared for every value of the symbolic attributes; at most one entry per name.",
+         "std HashSet inside compute_available_fixtures limits worlds to one fixture name; get_imported_fixtures replaced by the import oracle." + COMMON_NOTE),
+ "C06": ("DESIGN.md §4 C06, §9", "Histories of full-text versions through the real analyze_file over the parser oracle: after each 2-step history (second step chosen symbolically among three versions incl. unparsable / empty / comment-only / rename / same-name-twice) every map's records for the file equal what a FRESH index records for the latest valid version (expectation generated natively from the current tree by the real analyzer).",
+         "Histories of length 2 over a 13-version table, two files; versions outside the table and longer histories are outside the claim." + COMMON_NOTE),
+ "C07": ("DESIGN.md §4 C07, §9", "Warm vs cold: after analyse / warm query / edit (symbolic choice) the answer of get_available_fixtures equals the answer after dropping every cache; closing either document (cleanup_file_cache) leaves resolution and the per-file view unchanged.",
+         "Eviction threshold (2000 files) not reachable; import-only edits need the import walk (C14) and are outside." + COMMON_NOTE),
+ "C08": ("DESIGN.md §4 C08, §9", "Registration-order independence: the same content built in two registration orders gives the same resolution (pairs of orders per content, attributes symbolic), plus every C01 arm that exists in several orders and the C16 order pairs.",
+         "Orders are the listed pairs/arms (all 6 orders for the three-conftest chain in the thorough tier); hash-seed dependent std HashMap iteration inside cycle detection is exercised with one fixed seed only." + COMMON_NOTE),
+ "C10": ("DESIGN.md §4 C10, §9", "The two SERIAL orders of {scan worker: analyze_file_fresh(F, disk)} and {didOpen: analyze_file(F, buffer)} with buffer/disk versions chosen symbolically, followed by one further change: the index must describe the buffer exactly once (compared with fresh-state expectations).",
+         "Interleavings inside an analysis are not explored (no concurrency model, same reason as C09); symlinked paths (canonicalisation) are outside (Path::canonicalize stubbed)." + COMMON_NOTE),
+ "C11": ("DESIGN.md §4 C11, §9", "Panic-freedom of the string/offset kernels applied to untrusted or stale data, decided by CBMC over symbolic bytes (any valid UTF-8 up to 3-4 bytes, template classes with multi-byte characters, symbolic alphabets) and unconstrained offsets; Rust's own panics, bounds and overflow checks are the assertion.",
+         "Library kernels only (extract_word_at_position, parameter_has_annotation, format_docstring, line index arithmetic, get_function_param_insertion_info, position queries on stale spans, completion text fallback); text lengths as stated per harness." + COMMON_NOTE),
+ "C12": ("DESIGN.md §4 C12, §9", "Lock discipline: the sequential DashMap stand-in asserts in every write-locking operation that no guard of the same map is live on the calling path (shard-independent statement) — active in every harness of every family; termination: unwinding assertions on compute_fixture_cycles over cyclic dependency graphs and on the conftest walk.",
+         "Single-threaded paths only (no lock-order inversion across threads); import-graph cycles need the import walk (C14)." + COMMON_NOTE),
+ "C15": ("DESIGN.md §4 C15, §9", "Recorded positions: line-index arithmetic against its specification for every sorted index (<= 4 lines) and offset; find_function_name_position on def-line templates; usage spans recorded by the real analyzer for non-ASCII prefixes (UTF-16 expectation) and string-literal forms, compared with hand-computed token spans.",
+         "Positions as recorded by the library; Range construction and selection ranges in handlers are outside." + COMMON_NOTE),
+ "C16": ("DESIGN.md §4 C16, §9", "Cycle and scope-mismatch diagnostics of the real detect_fixture_cycles / detect_scope_mismatches_in_file against a reference dependency graph whose edges are resolved per depending file; all 25 scope pairs and definition lines symbolic per graph arm; both registration orders.",
+         "<= 3 fixture names, <= 3 definitions per arm (std HashMap/HashSet cost); one fixed hash seed." + COMMON_NOTE),
+ "C17": ("DESIGN.md §4 C17, §9", "Undeclared-fixture scan through the real analyze_file (parser oracle) on a document using a visible fixture in six expression positions next to a parameter, an invisible fixture, an unknown name, a module-level name and a local: findings compared exactly with the hand-written expectation; insertion point + derived edit on signature templates compared with the expected edited text; panic-freedom of the insertion scan over a symbolic alphabet.",
+         "One scan document, template signatures; the code-action handler's own text search is outside." + COMMON_NOTE),
+ "C18": ("DESIGN.md §4 C18, §9", "Completion context classification of the real get_completion_context for cursor lines of a table document (AST path via parser oracle) and of incomplete documents (text fallback), chosen by symbolic selector; offered set: get_available_fixtures vs navigation per world arm (shared with C05).",
+         "Filter/sort helpers in src/providers/completion.rs (binary crate, tower-lsp types) are not encoded; documents outside the table are outside." + COMMON_NOTE),
+ "C20": ("DESIGN.md §4 C20, §9", "Library half: get_unused_fixtures lists D iff D is not third-party, not autouse and find_references_for_definition(D) is empty, each (file, name) once, sorted — decided per world arm with autouse flags symbolic.",
+         "Text/JSON rendering and exit codes (src/main.rs) not encoded; <= 3 definitions per world (std HashMap<(PathBuf,String)> cost)." + COMMON_NOTE),
 }
+READY = set(os.environ.get("PLSV_READY", "").split(",")) if os.environ.get("PLSV_READY") else None
+try:
+    READY = set(json.load(open(os.path.join(V, "tools", "ready.json"))))
+except Exception:
+    READY = set()
 NOT_APPLICABLE = {
  "C09": "needs interleavings at map-operation granularity of two running analyses; Kani/CBMC execute one thread and no thread-aware solver for Rust is installed; re-sequencing cut-up pieces by hand would be a model, not the real code",
  "C13": "the decision logic is written inline in the WalkDir loop of scan_workspace_with_excludes (FFI directory walking, cannot be stubbed at the needed granularity); the only callable kernel does not decide the property",
@@ -24,7 +58,7 @@ def main():
     na = []
     for p in props:
         i = p["id"]
-        if i in CLAIMED:
+        if i in CLAIMED and i in READY:
             ref, text, note = CLAIMED[i]
             checks.append({
                 "property_id": i,
@@ -35,7 +69,7 @@ def main():
                 "engine": "kani-cbmc",
                 "level_claimed": {"category": "model_checking", "text": text, "design_ref": ref},
                 "level_note": note,
-                "technique": "bounded symbolic execution of the real Rust code (Kani 0.68 -> CBMC 6.11, CaDiCaL), counterexamples replayed natively",
+                "technique": TECH,
             })
         elif i in NOT_APPLICABLE:
             na.append({"property_id": i, "reason": NOT_APPLICABLE[i]})
@@ -52,8 +86,8 @@ def main():
             "add_only": True,
         },
         "engines": [
-            {"name": "kani-cbmc", "path": "/verif/kani", "serves_properties": sorted(CLAIMED), "kind_free_text": "Kani 0.68.0 codegen of the mounted repo sources + goto-cc/goto-instrument/cbmc 6.11.0 (CaDiCaL), driven by /verif/check"},
-            {"name": "native-replay", "path": "/verif/replay", "serves_properties": sorted(CLAIMED), "kind_free_text": "same harness sources compiled natively against the real dependency set; replays solver witnesses and runs fidelity gates"},
+            {"name": "kani-cbmc", "path": "/verif/kani", "serves_properties": sorted(READY), "kind_free_text": "Kani 0.68.0 codegen of the mounted repo sources + goto-cc/goto-instrument/cbmc 6.11.0 (CaDiCaL), driven by /verif/check"},
+            {"name": "native-replay", "path": "/verif/replay", "serves_properties": sorted(READY), "kind_free_text": "same harness sources compiled natively against the real dependency set; replays solver witnesses and runs fidelity gates"},
         ],
         "checks": checks,
         "not_applicable": na,
